@@ -198,7 +198,7 @@ pub fn run(mut chk: Check) -> ! {
         .into();
     chk.assumptions = vec!["corpus schemas are the derived ones (the documented supported pairing); a derive defect would surface here as well as in C17".into()];
     chk.replay_files(dispatch);
-    let n = chk.scale(20_000, 1_000_000);
+    let n = chk.scale(400_000, 2_000_000);
     chk.campaign(CampaignCfg::new("corpus", n).len(0, 900), case_corpus);
     chk.campaign(CampaignCfg::new("dynamic", n / 2), case_dynamic);
     chk.finish()
